@@ -170,7 +170,7 @@ fn reachable_exact(t: &Term, u: &Term, c: usize) -> bool {
 
 // ------------------------------------------------------------------------------------------ C02
 pub fn c02(ctx: &mut Ctx) {
-    let (sb, sa, free) = if ctx.thorough { (5, 4, 3) } else { (4, 3, 3) };
+    let (sb, sa, free) = if ctx.thorough { (6, 4, 3) } else { (5, 3, 3) };
     let mut bodies = Vec::new();
     for sx in 1..=sb {
         enum_exact(sx, 1, free, &mut bodies);
@@ -189,7 +189,7 @@ pub fn c02(ctx: &mut Ctx) {
             }
         }
     }
-    let nrand = if ctx.thorough { 20000 } else { 2000 };
+    let nrand = if ctx.thorough { 200000 } else { 10000 };
     for _ in 0..nrand {
         let bb = 3 + ctx.rng.below(36);
         let ab = 1 + ctx.rng.below(12);
@@ -877,9 +877,9 @@ fn ref_max_depth(t: &Term) -> u32 {
 
 pub fn c18(ctx: &mut Ctx) {
     let sz = if ctx.thorough {
-        Sizes { enum_size: 7, enum_free: 2, n_random: 20000, rand_size: 50 }
+        Sizes { enum_size: 9, enum_free: 2, n_random: 200000, rand_size: 60 }
     } else {
-        Sizes { enum_size: 6, enum_free: 2, n_random: 3000, rand_size: 40 }
+        Sizes { enum_size: 8, enum_free: 2, n_random: 20000, rand_size: 40 }
     };
     let uni = universe(ctx, &sz, true);
     for t in &uni {
@@ -943,9 +943,9 @@ pub fn c18(ctx: &mut Ctx) {
 // ------------------------------------------------------------------------------------------ C19
 pub fn c19(ctx: &mut Ctx) {
     let sz = if ctx.thorough {
-        Sizes { enum_size: 6, enum_free: 2, n_random: 10000, rand_size: 40 }
+        Sizes { enum_size: 8, enum_free: 2, n_random: 50000, rand_size: 40 }
     } else {
-        Sizes { enum_size: 5, enum_free: 2, n_random: 1500, rand_size: 30 }
+        Sizes { enum_size: 7, enum_free: 2, n_random: 5000, rand_size: 30 }
     };
     let uni = universe(ctx, &sz, true);
     let e = |x: &str| format!("err {}", x);
